@@ -75,6 +75,8 @@ inline rx::Presentation pres_named(const std::string& s) {
         return rx::PRES_DIRECT;
     if (s == "noself")
         return rx::PRES_FULL_NOSELF;
+    if (s == "split")
+        return rx::PRES_SPLIT;
     fprintf(stderr, "unknown presentation %s\n", s.c_str());
     exit(2);
 }
